@@ -488,9 +488,15 @@ def _shard(a):
     return tot
 
 
-def build(ctx):
-    objs = ctx.builder.lib('asan', SRCS)
-    return ctx.builder.driver('c19', 'asan', ['c19_aws.c'], objs, wraps=('time',), libs=())
+# The signatures hang on SHA-256, whose implementation is chosen at run time:
+# the same cases run on three builds (SHA-NI as on this host; SSE2 only; plain C).
+BUILDS = [('shani', None), ('sse2', ['X86_CPUID', 'X86_SSE2']), ('portable', ['X86_CPUID'])]
+
+
+def build(ctx, cpu=None):
+    objs = ctx.builder.lib('asan', SRCS, cpu=cpu)
+    return ctx.builder.driver('c19' + ('-' + '-'.join(cpu) if cpu else ''), 'asan', ['c19_aws.c'], objs,
+                              wraps=('time',), libs=(), cpu=cpu)
 
 
 def check_clock_source():
@@ -507,12 +513,14 @@ def check_clock_source():
 def run(ctx):
     oracle_selftest()
     check_clock_source()
-    exe = build(ctx)
+    exes = [build(ctx, cpu) for _, cpu in BUILDS]
     n = core.NCPU
     seeds = core.shard_seeds(ctx.seed, 'C19', n)
     nrounds = ctx.n(2, 80)
-    res = core.pmap(_shard, [(exe, seeds[i], nrounds, i, n) for i in range(n)])
+    res = core.pmap(_shard, [(exes[i % len(exes)], seeds[i], nrounds, i, n) for i in range(n)])
     core.merge(ctx, res)
+    ctx.cov['builds'] = ['%s: shards %s' % (BUILDS[j][0], ','.join(str(i) for i in range(n) if i % len(exes) == j))
+                         for j in range(len(exes))]
     for r in res[:4]:
         for s in r['samples'][:1]:
             ctx.add_sample(s)
@@ -539,8 +547,8 @@ def run(ctx):
 
 
 def replay(ctx, case):
-    exe = build(ctx)
     c = dict(case)
     c.setdefault('expect', '')
-    r = core.line_shard(exe, [c], judge=judge, env=DRIVER_ENV)
-    core.merge(ctx, [r])
+    for _, cpu in BUILDS:
+        r = core.line_shard(build(ctx, cpu), [c], judge=judge, env=DRIVER_ENV)
+        core.merge(ctx, [r])
